@@ -94,6 +94,8 @@ def plist_cases(rng, tier, n0):
                             "url": "http://patch-dl.ffxiv.com/%s/%08x/D%s.patch" % (kind, rng.getrandbits(32), rname(rng, 6))})
         ident = "%08X_%04X_41d4" % (rng.getrandbits(32), rng.getrandbits(16))
         loc = "ffxivpatch/%08x/metainfo/%s.http" % (rng.getrandbits(32), rname(rng, 5))
+        if rng.random() < 0.2:
+            loc = ""              # what re-rendering a parsed list produces: the parser does not keep the location
         enc = lambda p: {"length": B(p["length"]), "size": B(p["size"]), "a": B(p["a"]), "b": B(p["b"]),
                          "version": B(p["version"]), "hbs": B(p["hbs"]), "hashes": [B(h) for h in p["hashes"]],
                          "url": B(p["url"])}
